@@ -284,7 +284,7 @@ def r08f(run):
 
 
 def check(run):
-    run.rules_run += ["R08a", "R08b(R04e)", "R08c", "R08d", "R08e", "R08f", "R10e"]
+    run.rules_run += ["R08a", "R08b(R04e)", "R08c", "R08d", "R08e", "R08f", "R10e", "R06i"]
     run.explain("C08 (wrapper discipline; the binding arithmetic itself is not decidable statically): (R08a) every wrapper "
                 "kind creates a per-call context, resolves forward references before get_params, calls get_params with "
                 "identical arguments, parses the result channel exactly under parse_result, and wrap() dispatches each "
@@ -298,5 +298,8 @@ def check(run):
     r08d(run)
     r08e(run)
     r08f(run)
+    from . import c06
+    _pd, _A, _B = c06.siblings(run)
+    c06.r06i(run, _A, _B)
     from . import c10
     c10.r10e(run, [g for g in run.repo.module('utype.parser.func').functions.values()], rule="R10e", floor=6)
